@@ -36,6 +36,14 @@ func (r *recorder) Write(b []byte) (int, error) {
 }
 func (r *recorder) WriteHeader(code int) { r.status = code }
 
+// headerProblem checks what a real server would enforce: a declared Content-Length equals the bytes written
+func (r *recorder) headerProblem() string {
+	if cl := r.hdr.Get("Content-Length"); cl != "" && cl != fmt.Sprint(r.body.Len()) {
+		return fmt.Sprintf("Content-Length says %s but %d bytes were written (a server would cut or refuse the body)", cl, r.body.Len())
+	}
+	return ""
+}
+
 type histUser struct {
 	Name  string
 	Age   int
